@@ -548,7 +548,7 @@ def random_connection(rng, idx=0, v6=None, suite=None, features=None):
     ep = f.get("endpoints") or {}
     cip, sip = ep.get("cip", cip), ep.get("sip", sip)
     c = QConn(rng, suite=f["suite"], offer=offer, scid_c_len=f["scid_c_len"], scid_s_len=f["scid_s_len"],
-              cport=ep.get("cport", 30000 + rng.randrange(30000)), sport=ep.get("sport", 443), cip=cip, sip=sip, early=f["zero_rtt"], prefix_cid=f["prefix_cid"],
+              cport=ep.get("cport") or wire.client_port(rng, 30000, 60000), sport=ep.get("sport", 443), cip=cip, sip=sip, early=f["zero_rtt"], prefix_cid=f["prefix_cid"],
               t0=1_700_000_100_000_000 + idx * 1000 + rng.randrange(10 ** 6), pn_start=pn_start,
               cmac=bytes([2, 0, 2, rng.randrange(256), rng.randrange(256), idx & 255]),
               smac=bytes([2, 0, 3, rng.randrange(256), rng.randrange(256), idx & 255]))
